@@ -101,7 +101,8 @@ def gcc_used_code(case, root, cmd, tool="gcc"):
     lang = "c++" if cmd["file"].endswith((".cpp", ".cc", ".cxx", ".hpp")) else "c"
     p = subprocess.run(
         [tool, "-E", "-P", "-x", lang, "-nostdinc", *gcc_flags(root, cmd), os.path.join(root, cmd["file"])],
-        cwd=os.path.dirname(os.path.join(root, cmd["file"])), stdout=subprocess.PIPE, stderr=subprocess.PIPE, text=True, errors="replace",
+        # the working directory matters for -include only: the command's own directory if it has one, else a neutral place
+        cwd=os.path.join(root, cmd["cwd"]) if cmd.get("cwd") else root, stdout=subprocess.PIPE, stderr=subprocess.PIPE, text=True, errors="replace",
     )
     diag = bool(p.stderr.strip()) or p.returncode != 0
     ids = pp_ast.marker_file_ids(case["tree"])
